@@ -13,7 +13,8 @@ EXPLANATION = (
     "escaping, no indent, the synced-collection encoder, and the parameter reaches json.dumps unmodified; (b) no other "
     "function derives a job id: hashlib is used only inside calc_id and every write of a Job._id takes calc_id(...), an "
     "id parameter or another job's id; (c) ids are re-derived and compared whenever a state point is read from disk "
-    "(shared with C09-a); (d) the mapping given to Project.open_job is deep-copied before it becomes the job's state point. "
+    "(shared with C09-a); (d) the mapping given to Project.open_job is deep-copied before it becomes the job's state point; "
+    "(e) a state point edit keeps the old id only if old and new id are equal (values that are == in Python but differ as JSON re-key the job). "
     "Each json.dumps option is a separate obligation because each one changes the digest for some state point."
 )
 UNDECIDED = ("That json.dumps(sort_keys=True) sorts at every level, float/int formatting, distinctness of ids for distinct "
@@ -347,4 +348,14 @@ def c01_c(ctx: Ctx):
     return res
 
 
-RULES = [c01_a, c01_b, c01_c, c01_d]
+@rule("C01-e")
+def c01_e(ctx: Ctx):
+    """A state point change re-keys the job unless the ids are equal: _save skips the migration only under id equality (same obligation as C04-f)."""
+    from .c04 import c04_f
+    res = c04_f(ctx)
+    for r in res:
+        r.rule = "C01-e"
+    return res
+
+
+RULES = [c01_a, c01_b, c01_c, c01_d, c01_e]
